@@ -277,6 +277,36 @@ pub fn sheet_p_sel(ws: &Worksheet, o: Opts, with_collections: bool) -> Value {
             .map(|t| json!({"name": t.get_name(), "display": t.get_display_name(), "area": format!("{}:{}", t.get_area().0.get_coordinate(), t.get_area().1.get_coordinate()), "columns": t.get_columns().iter().map(|c| c.get_name().to_string()).collect::<Vec<_>>()}))
             .collect();
         m.insert("tables".into(), json!(tb));
+        // drawings: pictures, charts, embedded objects (content by length + hash)
+        let mut imgs: Vec<Value> = ws
+            .get_image_collection()
+            .iter()
+            .map(|im| json!({"name": im.get_image_name(), "at": im.get_coordinate(), "bytes": im.get_image_data().len(), "hash": format!("{:016x}", crate::common::fnv(im.get_image_data()))}))
+            .collect();
+        imgs.sort_by_key(|v| v.to_string());
+        m.insert("images".into(), json!(imgs));
+        let mut charts: Vec<Value> = ws
+            .get_chart_collection()
+            .iter()
+            .map(|ch| {
+                let a = ch.get_two_cell_anchor();
+                let mut c2 = ch.clone();
+                let formulas: Vec<String> = c2.get_plot_area_mut().get_formula_mut().into_iter().map(|f| f.get_address_str()).collect();
+                json!({"from": a.get_from_marker().get_coordinate(), "to": a.get_to_marker().get_coordinate(), "formulas": formulas})
+            })
+            .collect();
+        charts.sort_by_key(|v| v.to_string());
+        m.insert("charts".into(), json!(charts));
+        let oles: Vec<Value> = ws
+            .get_ole_objects()
+            .get_ole_object()
+            .iter()
+            .map(|o| {
+                let d = o.get_object_data().unwrap_or(&[]);
+                json!({"prog_id": o.get_prog_id(), "ext": o.get_object_extension(), "bytes": d.len(), "hash": format!("{:016x}", crate::common::fnv(d))})
+            })
+            .collect();
+        m.insert("ole_objects".into(), json!(oles));
     }
     Value::Object(m)
 }
